@@ -6,7 +6,7 @@ import impl, gen, scale
 from common import frac, float_is_quotient, close, score_matches
 from impl import Metric, quiet
 
-RULE = ("large-scale corpus (oracle only): masks of 2^22+1 .. 2^24+3 voxels in a 25M-voxel array, identical / shifted / two-label unions, judged by exact integer counts; fragmented predictions with 8-60 sparse/dense instance ids and label lists of up to 80 entries; the same array objects scored repeatedly with in-place edits in between; object-based 1-3-D label maps x dtypes {bool,uint8..64,int32,int64} x reference label (present/absent) x "
+RULE = ("centre-line Dice in memory layouts {C, Fortran, transposed view, slice of a larger array, negative strides}, with and without label selection; large-scale corpus (oracle only): masks of 2^22+1 .. 2^24+3 voxels in a 25M-voxel array, identical / shifted / two-label unions, judged by exact integer counts; fragmented predictions with 8-60 sparse/dense instance ids and label lists of up to 80 entries; the same array objects scored repeatedly with in-place edits in between; object-based 1-3-D label maps x dtypes {bool,uint8..64,int32,int64} x reference label (present/absent) x "
         "prediction label or list of 1-4 labels (present/absent, non-consecutive) x with/without selection; "
         "exhaustive {0,1,2}-arrays of 4 cells x all (r, ps); non-trivial = both selected masks non-empty and different; "
         "distinct = hash of (arrays, selection, metric)")
@@ -85,20 +85,46 @@ def one_case(ctx, ref, pred, r, ps, metric, src):
             ctx.violation(f"{metric}==1 iff identical non-empty masks violated: value {g}", inp, impl=g)
 
 
-def cldice_case(ctx, ref, pred, src):
+def relayout(a, k):
+    """the same logical array in another memory layout"""
+    if k == "F":
+        return np.asfortranarray(a)
+    if k == "T":
+        return np.ascontiguousarray(a.T).T
+    if k == "slice":
+        big = np.zeros(tuple(n + 2 for n in a.shape), a.dtype)
+        big[tuple(slice(1, -1) for _ in a.shape)] = a
+        return big[tuple(slice(1, -1) for _ in a.shape)]
+    if k == "neg":
+        return np.ascontiguousarray(a[::-1])[::-1]
+    return a
+
+
+def cldice_case(ctx, ref, pred, src, layout="C", sel=None):
+    """ref / pred: 0-1 arrays (or label arrays with `sel` = (reference label, prediction label))"""
     from skimage.morphology import skeletonize, skeletonize_3d
     sk = skeletonize if ref.ndim == 2 else skeletonize_3d
-    sr = (sk(ref) != 0).astype(np.uint8)
-    sp = (sk(pred) != 0).astype(np.uint8)
-    inp = {"shape": list(ref.shape), "ref": gen.arr_json(ref), "pred": gen.arr_json(pred), "m": "clDSC", "src": src}
-    ctx.case(inp, bool(ref.any() and pred.any() and (ref != pred).any()))
+    R = (ref == sel[0]).astype(np.uint8) if sel else (ref != 0).astype(np.uint8)
+    P = (pred == sel[1]).astype(np.uint8) if sel else (pred != 0).astype(np.uint8)
+    sr = (sk(np.ascontiguousarray(R)) != 0).astype(np.uint8)
+    sp = (sk(np.ascontiguousarray(P)) != 0).astype(np.uint8)
+    inp = {"shape": list(ref.shape), "dtype": str(ref.dtype), "ref": gen.arr_json(ref), "pred": gen.arr_json(pred), "m": "clDSC", "src": src,
+           "layout": layout, "sel": list(sel) if sel else None}
+    ctx.case(inp, bool(R.any() and P.any() and (R != P).any()))
     ctx.count("metric.clDSC")
-    with quiet(), np.errstate(all="ignore"):
-        got = float(Metric.clDSC(ref, pred))
-    mod = ctx.driver().ask({"op": "cldice", "ref": inp["ref"], "pred": inp["pred"],
+    ctx.count("cldsc.layout." + layout)
+    a, b = relayout(ref, layout), relayout(pred, layout)
+    try:
+        with quiet(), np.errstate(all="ignore"):
+            got = float(Metric.clDSC(a, b, sel[0], sel[1])) if sel else float(Metric.clDSC(a, b))
+    except Exception as e:
+        ctx.violation(f"clDice raised {type(e).__name__}: {e} for a {ref.ndim}-D pair in memory layout {layout!r}"
+                      f"{' with label selection' if sel else ''} (the same arrays in C order evaluate)", inp, key={"kind": "cldice-raises"})
+        return
+    mod = ctx.driver().ask({"op": "cldice", "ref": gen.arr_json(R), "pred": gen.arr_json(P),
                             "skel_ref": gen.arr_json(sr), "skel_pred": gen.arr_json(sp)})
-    tp = (pred * sr).sum() / sr.sum() if sr.sum() else None
-    ts = (ref * sp).sum() / sp.sum() if sp.sum() else None
+    tp = (P * sr).sum() / sr.sum() if sr.sum() else None
+    ts = (R * sp).sum() / sp.sum() if sp.sum() else None
     if mod is None:
         if not np.isnan(got):
             ctx.disagree("clDice (model undefined)", inp, got, mod)
@@ -277,7 +303,12 @@ def run(ctx):
         ref = (gen.instance_map(rng, shape, rng.randint(1, 3)) != 0).astype(np.uint8)
         pred = (gen.perturb(rng, ref) != 0).astype(np.uint8)
         if ref.any() and pred.any():
-            cldice_case(ctx, ref, pred, f"cl{i}")
+            cldice_case(ctx, ref, pred, f"cl{i}", layout=rng.choice(["C", "C", "F", "T", "slice", "neg"]))
+            if rng.random() < 0.5:
+                # label arrays with selection
+                lr, lp = rng.randint(1, 9), rng.randint(1, 9)
+                cldice_case(ctx, (ref * lr).astype(np.uint8), (pred * lp).astype(np.uint8), f"cl{i}.sel",
+                            layout=rng.choice(["C", "F", "T", "slice"]), sel=(lr, lp))
 
 
 def search(ctx):
@@ -288,6 +319,11 @@ def search(ctx):
 
 def replay(ctx, rec):
     inp = rec["input"]
+    if inp.get("m") == "clDSC":
+        dt = np.dtype(inp.get("dtype", "uint8"))
+        cldice_case(ctx, np.array(inp["ref"]).reshape(inp["shape"]).astype(dt), np.array(inp["pred"]).reshape(inp["shape"]).astype(dt), "replay",
+                    layout=inp.get("layout", "C"), sel=tuple(inp["sel"]) if inp.get("sel") else None)
+        return
     if "recipe" in inp:
         scale_case(ctx, inp["recipe"], inp.get("r") or 1, inp.get("ps") or [1], "replay")
         return
